@@ -132,7 +132,27 @@ fn run_seq<T: Copy + ohsl::Number + ohsl::Signed + std::fmt::Debug + Send + Sync
     }
 }
 
+/// calls the crate refuses (Err or panic), under guarded(), in every element type; used by the "poison" cases
+fn refuse(kind: &str) {
+    let _ = guarded(|| match kind {
+        "divempty" => { let _ = Polynomial::<f64>::new(vec![1.0, 2.0]).polydiv(&Polynomial::<f64>::new(vec![])); let _ = Polynomial::<Rat>::new(vec![Rat::int(1)]).polydiv(&Polynomial::<Rat>::new(vec![])); }
+        "divzero" => { let _ = Polynomial::<Cmplx>::new(vec![Cmplx::new(1.0, 1.0); 3]).polydiv(&Polynomial::<Cmplx>::new(vec![Cmplx::new(0.0, 0.0); 2])); let _ = Polynomial::<Rat>::new(vec![Rat::int(1); 3]).polydiv(&Polynomial::<Rat>::new(vec![Rat::int(0); 2])); }
+        // a divisor whose leading coefficient vanishes: the exact type panics (division by zero) INSIDE polydiv
+        "leadzero" => { let _ = Polynomial::<Rat>::new(vec![Rat::int(1), Rat::int(2), Rat::int(3)]).polydiv(&Polynomial::<Rat>::new(vec![Rat::int(1), Rat::int(0)])); }
+        "leadzerof" => { let _ = Polynomial::<f64>::new(vec![1.0, 2.0, 3.0]).polydiv(&Polynomial::<f64>::new(vec![1.0, 0.0])); }
+        "index" => { let p = Polynomial::<f64>::new(vec![1.0]); let _ = p[4]; }
+        "trimempty" => { let mut p = Polynomial::<Rat>::new(vec![]); p.trim(); }
+        _ => { let _ = Polynomial::<f64>::new(vec![7.0]).roots(false); }
+    });
+}
+
 pub fn exec(case: &Value, out: &mut Out) {
+    if let Some(k) = case.get("poison").and_then(|v| v.as_str()) {
+        // a refused call, IMMEDIATELY followed on this thread by an ordinary division - and once more
+        refuse(k);
+        let mut c = case.clone(); c.as_object_mut().unwrap().remove("poison");
+        exec(&c, out); exec(&c, out); return;
+    }
     if case.get("steps").is_some() {
         return match gets(case, "ty") { "rat" => run_seq::<Rat>(case, out, "rat", &|x| Rat::int(x), &|c| Some(c)),
             "cxr" => run_seq::<Cmplx>(case, out, "cxr", &|x| Cmplx::new(x as f64, 0.0), &|c| if c.imag == 0.0 { f64_to_rat(c.real) } else { None }),
@@ -271,6 +291,7 @@ pub fn gen(tier: &str, seed: u64, out: &mut Out) {
     gen_special(quick, &mut rng, out, &mut push);
     gen_sequences(quick, &mut rng, out, &mut push);
     gen_zero_flips(quick, &mut rng, out, &mut push);
+    gen_poison(quick, &mut rng, out, &mut push);
 }
 
 // ------------------------------------------------------------------ special exact values (leads of modulus 1, monomial divisors, 0 / 1 / -1 in every position)
@@ -451,4 +472,22 @@ fn gen_zero_flips(quick: bool, rng: &mut StdRng, out: &mut Out, push: &mut dyn F
             break;
         }
     } } } } }
+}
+
+/// (s7) a refused call (Err or panic inside polydiv, index out of range, ...) immediately followed by ordinary divisions on the same thread, twice
+fn gen_poison(quick: bool, rng: &mut StdRng, out: &mut Out, push: &mut dyn FnMut(&mut Out, Value)) {
+    for _rep in 0..(if quick { 1 } else { 5 }) { for kind in ["divempty", "divzero", "leadzero", "leadzerof", "index", "trimempty", "deg0roots"] { for lu in [1usize, 4, 8, 11] {
+        let lv = 1 + (lu + kind.len()) % 4;
+        // exact: small integers, divisor lead +-1
+        for ty in ["rat", "f64x"] { for _ in 0..200 {
+            let u = int_coeffs(rng, lu, 3); let mut v = int_coeffs(rng, lv, 3); v[lv - 1] = [1i64, -1][rng.gen_range(0..2)];
+            let (ur, vr): (Vec<Rat>, Vec<Rat>) = (u.iter().map(|x| Rat::int(*x)).collect(), v.iter().map(|x| Rat::int(*x)).collect());
+            if division_is_small(&ur, &vr) { push(out, json!({"ty": ty, "poison": kind, "u": u, "v": v})); break; }
+        } }
+        // general floats
+        let uf: Vec<f64> = (0..lu).map(|_| general(rng, 1.0)).collect(); let vf: Vec<f64> = (0..lv).map(|_| general(rng, 1.0)).collect();
+        push(out, json!({"ty": "f64", "poison": kind, "u": hexvec(&uf), "v": hexvec(&vf)}));
+        let ui: Vec<f64> = (0..lu).map(|_| general(rng, 1.0)).collect(); let vi: Vec<f64> = (0..lv).map(|_| general(rng, 1.0)).collect();
+        push(out, json!({"ty": "cx", "poison": kind, "u": hexvec(&uf), "ui": hexvec(&ui), "v": hexvec(&vf), "vi": hexvec(&vi)}));
+    } } }
 }
